@@ -34,6 +34,8 @@ SHARDS = {"quick": 1, "thorough": 16}
 
 FILE_DEP = {"k": "dep", "name": "testdep", "version": "1.0", "source": {"package": "htmltools", "subdir": "libtest/testdep"},
             "script": [{"src": "testdep.js"}], "stylesheet": [{"href": "testdep.css"}]}
+FILE_DEP3 = {"k": "dep", "name": "testdep", "version": "2.0", "source": {"package": "htmltools", "subdir": "libtest/dep2"},
+             "script": {"src": "td2.js"}}   # same name as FILE_DEP, other version and directory
 FILE_DEP2 = {"k": "dep", "name": "dep2", "version": "2.1.0", "source": {"package": "htmltools", "subdir": "libtest/dep2"},
              "script": {"src": "td2.js"}, "stylesheet": {"href": "td2.css"}, "all_files": True}
 
@@ -44,6 +46,8 @@ def rand_dep(rng, ids_):
         return copy.deepcopy(FILE_DEP)
     if r < 0.3:
         return copy.deepcopy(FILE_DEP2)
+    if r < 0.38:
+        return copy.deepcopy(FILE_DEP3)
     d = {"k": "dep", "name": rng.choice(["da", "db", "dc"]), "version": rng.choice(["1.0", "1.9", "1.10"])}
     if rng.random() < 0.15:
         # a directory source written with an explicit package=None (the directory need not exist for rendering)
@@ -184,7 +188,8 @@ def ops_for(kind, scratch):
         "as_html_tags(None,False)": lambda o: o.as_html_tags(lib_prefix=None, include_version=False),
         "as_dict": lambda o: o.as_dict(),
         "as_dict(p)": lambda o: o.as_dict(lib_prefix="p/q", include_version=False),
-        "source_path_map": lambda o: o.source_path_map(),
+        "source_path_map": lambda o: _checked_source(o, o.source_path_map()),
+        "source_path_map(noversion)": lambda o: _checked_source(o, o.source_path_map(lib_prefix=None, include_version=False)),
         "serialize_to_script_json": lambda o: o.serialize_to_script_json(),
         "serialize_to_script_json(2)": lambda o: o.serialize_to_script_json(indent=2),
         "copy_to": lambda o: copy_to(o),
@@ -195,6 +200,21 @@ def ops_for(kind, scratch):
         "in_tree_render": lambda o: ht.div(o, "x").render(),
         "in_doc_render": lambda o: ht.HTMLDocument(ht.div(o)).render(),
     }
+
+
+class WrongSource(Exception):
+    pass
+
+
+def _checked_source(dep, m):
+    """The source directory belongs to THIS dependency's package and subdir, whatever was asked of other dependencies before."""
+    src = dep.source
+    if isinstance(src, dict) and src.get("package") and "subdir" in src:
+        import importlib
+        want = os.path.join(os.path.dirname(importlib.import_module(src["package"]).__file__), src["subdir"])
+        if os.path.realpath(m["source"]) != os.path.realpath(want):
+            raise WrongSource("source_path_map() of %s-%s gives %r, its own directory is %r" % (dep.name, dep.version, m["source"], want))
+    return m
 
 
 def has_missing_files(kind, r):
@@ -345,6 +365,9 @@ def run_history(ctx, h, scratch):
         ctx.count("monitor.purity")
         try:
             res = ops[name](obj)
+        except WrongSource as e:
+            ctx.violation("result-depends-on-other-objects", str(e), dict(wit, op=name))
+            return False
         except Exception as e:
             ctx.violation("read-only-op-raises", "%s raised %r" % (name, e), dict(wit, op=name))
             return False
